@@ -48,6 +48,8 @@ def jobs(tier):
             'bounds': 'k=%d events (plain / block directive / inline directive), directive menu SKIP, IGNORE_WANT, REQUIRES(met|unmet a|unmet b), sign symbolic; want present or not, output matching or not' % (2 if q else 3)},
            {'ob': 'defaults_as_leading_block', 'harness': 'defaults', 'nopt': 2 if q else 3, 'splits': [3, 6],
             'bounds': '1..%d comma separated options from %r with a symbolic sign character' % (2 if q else 3, FLAGS + ['REQUIRES(unmet)', 'REQUIRES(met)'])}]
+    out.append({'ob': 'directive_part_breaks', 'harness': 'chunk', 'k': 4 if q else 6, 'splits': [3, 6, 9, 12],
+                'bounds': 'the chunk obligation of C01: k<=%d source lines, statement starts / directives (none, block, inline) / want / mode hint symbolic; a directive isolates its statement and a part reports only its own directives' % (4 if q else 6)})
     for j in out:
         j['query_timeout_s'] = 60 if q else 300
     return out
@@ -446,6 +448,9 @@ class Defaults(Harness):
 
 
 def build(job):
+    if job['harness'] == 'chunk':
+        from . import c01
+        return c01.Chunk(job)
     return {'step': Step, 'run': RunRule, 'defaults': Defaults}[job['harness']](job)
 
 
@@ -470,6 +475,12 @@ def replay(job, cex):
     os.environ.pop('XDV_B', None)
     from xdoctest import directive as D
     h = cex.get('harness')
+    if h == 'chunk':
+        from . import c01
+        r = c01.replay(job, cex)
+        if r.get('signature'):
+            r['signature'] = r['signature'].replace('C01:', 'C04:')
+        return r
     if h == 'step':
         # reach the pre-state by a HISTORY of block directives from a fresh state
         rs = D.RuntimeState()
